@@ -229,7 +229,7 @@ func TestC19(t *testing.T) {
 	gen(nil, 0)
 	rec.R.Exhaustive = complete
 	rec.Flush()
-	total := 600 / cfg.NShards
+	total := 6000 / cfg.NShards
 	if cfg.Thorough() {
 		total = 60000 / cfg.NShards
 	}
